@@ -12,17 +12,18 @@ Open Scope list_scope.
 Section C08.
   Variable H : list ascii -> N.                   (* DefaultHasher *)
   Variable EV : str -> evr.                       (* evalexpr *)
+  Variable bd : str.
   Variable store : str -> N -> list ydoc.         (* content of version v of file f *)
 
   Notation world := (world vtree cargs tstate gen_result).
-  Notation coherent := (Inv vtree cargs tstate gen_result cprecheck (cload_ts store) (cgen H EV store) cis_local).
+  Notation coherent := (Inv vtree cargs tstate gen_result cprecheck (cload_ts bd store) (cgen H EV bd store) cis_local).
 
   (* After ANY history of runs (complete, failing, killed at any of the seven fault points) and
      arbitrary changes of the tree, a cache that exists was written by a complete run, on some tree
      whose loaded files it records, next to the complete ninja file of that run. *)
   Theorem C08_reachable_coherent : forall (t0 : vtree) (ops : list (op vtree cargs)),
-    coherent (fold_left (cstep H EV store) ops (fresh vtree cargs tstate gen_result t0)).
-  Proof. exact (reachable_coherent H EV store). Qed.
+    coherent (fold_left (cstep H EV bd store) ops (fresh vtree cargs tstate gen_result t0)).
+  Proof. exact (reachable_coherent H EV bd store). Qed.
 
   (* A run that is served from the cache in a coherent build directory writes nothing; the ninja
      file on disk is the complete file r of a generation of the CURRENT tree for the cached
@@ -31,7 +32,7 @@ Section C08.
      empty build directory succeeds, configures exactly the builds the hit hands to main that the
      arguments select, and writes only statements that are in the file on disk. *)
   Theorem C08_hit_is_fresh : forall a k (w w' : world) r',
-    coherent w -> crun H EV store a k w = (w', OHit r') ->
+    coherent w -> crun H EV bd store a k w = (w', OHit r') ->
     w' = w /\
     exists c r,
       s_cache _ _ _ (get_slot _ _ _ _ w (cis_local a)) = Some c /\
@@ -39,13 +40,28 @@ Section C08.
       r' = cview a r /\ caccepts (c_args _ _ _ c) r a = true /\ cts_valid (c_ts _ _ _ c) (w_tree _ _ _ _ w) = true /\
       (ca_le (c_args _ _ _ c) = ca_le a -> ca_define (c_args _ _ _ c) = ca_define a -> ca_partition a = None ->
        (ca_local a = None \/ ca_apps a = ca_apps (c_args _ _ _ c)) -> ca_local (c_args _ _ _ c) = ca_local a ->
-       (forall b, load (ytree_of store (w_tree _ _ _ _ w)) project_file = Ok b -> ctx_names_ok b) ->
+       (forall b, load (ytree_of store (w_tree _ _ _ _ w)) project_file bd = Ok b -> ctx_names_ok b) ->
        exists g',
-         snd (crun H EV store a 0 (fresh _ _ _ _ (w_tree _ _ _ _ w))) = ORegen g' /\
+         snd (crun H EV bd store a 0 (fresh _ _ _ _ (w_tree _ _ _ _ w))) = ORegen g' /\
          (forall x, In x (gr_builds g') <->
                     In x (gr_builds r') /\ selects (ca_builders a) (bi_builder x) = true /\ selects (ca_apps a) (bi_binary x) = true) /\
          (forall t, In t (map show_stmt (gr_stmts g')) -> In t (map show_stmt (gr_stmts r)))).
-  Proof. intros a k w w' r'. exact (hit_is_fresh H EV store a k w w' r' (load_frame_holds store)). Qed.
+  Proof. intros a k w w' r'. exact (hit_is_fresh H EV bd store a k w w' r' (load_frame_holds bd store)). Qed.
+
+  (* With --partition the cache is only accepted for the same selection (same builders in the same
+     order, same set of apps): a run with the same arguments in an empty build directory then
+     produces the cached generation itself. *)
+  Theorem C08_hit_with_partition : forall a k (w w' : world) r',
+    coherent w -> crun H EV bd store a k w = (w', OHit r') -> ca_partition a <> None ->
+    exists c r,
+      s_cache _ _ _ (get_slot _ _ _ _ w (cis_local a)) = Some c /\
+      s_ninja _ _ _ (get_slot _ _ _ _ w (cis_local a)) = NComplete r /\ r' = cview a r /\
+      (ca_le (c_args _ _ _ c) = ca_le a -> ca_define (c_args _ _ _ c) = ca_define a ->
+       ca_local (c_args _ _ _ c) = ca_local a ->
+       snd (crun H EV bd store a 0 (fresh _ _ _ _ (w_tree _ _ _ _ w))) = ORegen r /\
+       (forall x, In x (gr_builds r) <->
+                  In x (gr_builds r') /\ selects (ca_builders a) (bi_builder x) = true /\ selects (ca_apps a) (bi_binary x) = true)).
+  Proof. intros a k w w' r'. exact (hit_with_partition H EV bd store a k w w' r' (load_frame_holds bd store)). Qed.
 
   (* The cache is never accepted after the binary, --partition, --select, --disable, --define (as an
      environment), the start directory or a recorded file changed; narrower selections only when no
@@ -69,16 +85,17 @@ Section C08.
 
   (* An unchanged project with an identical command line is served from the cache. *)
   Theorem C08_identical_command_line_hits : forall a (w w1 : world) r,
-    crun H EV store a 0 w = (w1, ORegen r) -> exists k, crun H EV store a k w1 = (w1, OHit (cview a r)).
-  Proof. exact (identical_command_line_hits H EV store). Qed.
+    crun H EV bd store a 0 w = (w1, ORegen r) -> exists k, crun H EV bd store a k w1 = (w1, OHit (cview a r)).
+  Proof. exact (identical_command_line_hits H EV bd store). Qed.
 
   (* The loader reads only the files it records. *)
-  Theorem C08_load_frame : forall t1 t2 ts, cload_ts store t1 = Ok ts -> cts_valid ts t2 = true ->
-    cload_ts store t2 = Ok ts /\ load (ytree_of store t2) project_file = load (ytree_of store t1) project_file.
-  Proof. exact (load_frame_holds store). Qed.
+  Theorem C08_load_frame : forall t1 t2 ts, cload_ts bd store t1 = Ok ts -> cts_valid ts t2 = true ->
+    cload_ts bd store t2 = Ok ts /\ load (ytree_of store t2) project_file bd = load (ytree_of store t1) project_file bd.
+  Proof. exact (load_frame_holds bd store). Qed.
 End C08.
 Print Assumptions C08_reachable_coherent.
 Print Assumptions C08_hit_is_fresh.
+Print Assumptions C08_hit_with_partition.
 Print Assumptions C08_never_after_change.
 Print Assumptions C08_changed_file_invalidates.
 Print Assumptions C08_identical_command_line_hits.
